@@ -91,3 +91,9 @@ package resources
 //@ property C05
 //@ requires s != nil && s.Logger != nil
 //@ modifies nothing
+
+//@ func StatusResource.Load(recv) (st)
+//@ trusted
+//@ modifies nothing
+//@ ensures st != nil
+//@ note trusted: the status resource never hands out a nil status (it creates an empty one on first load); the coordinator only reads what it returns
